@@ -2,6 +2,7 @@
 Correspondence: xrspatial.zonal.regions vs the extracted Coq model coq/C16/Model.v (label for label);
 oracle: flood fill, label partitions compared up to renaming."""
 import itertools
+import time
 import math
 
 import numpy as np
@@ -309,6 +310,19 @@ def gen_random(ctx, count):
             dict(n=rng.choice([4, 8]), dtype=dtype, data=data)
 
 
+def gen_dense8(ctx, count):
+    """large two/three-valued rasters under 8-connectivity: many diagonal-only contacts, so pass 2 has to merge
+    three or more provisional labels at one cell (rare in small rasters)"""
+    rng = ctx.rng
+    for i in range(count):
+        rows, cols = rng.randint(8, 12), rng.randint(10, 12)
+        p = rng.choice([0.3, 0.35, 0.4, 0.45])
+        third = rng.random() < 0.3
+        data = [[(2.0 if third and rng.random() < 0.15 else (1.0 if rng.random() < p else 0.0)) for _ in range(cols)]
+                for _ in range(rows)]
+        yield 'dense8', dict(n=8 if i % 8 else 4, dtype='float64', data=data)
+
+
 def gen_inf(ctx, count):
     rng = ctx.rng
     for i in range(count):
@@ -351,12 +365,14 @@ def run(ctx):
         run_cases(ctx, gen_exhaustive(ctx, 6), light=True)
         run_cases(ctx, gen_shapes(ctx))
         run_cases(ctx, gen_random(ctx, 400))
+        run_cases(ctx, gen_dense8(ctx, 300), light=True)
         run_cases(ctx, gen_inf(ctx, 800))
     else:
         run_cases(ctx, gen_exhaustive(ctx, 9), light=True)
         run_cases(ctx, gen_exhaustive(ctx, 16, alphabet=(0.0, 1.0), shapes=[(3, 4), (4, 3), (4, 4), (2, 7), (7, 2)]), light=True)
         run_cases(ctx, gen_shapes(ctx))
         run_cases(ctx, gen_random(ctx, 6000))
+        run_cases(ctx, gen_dense8(ctx, 6000), light=True)
         run_cases(ctx, gen_inf(ctx, 6000))
     ctx.exhaustive = False
 
@@ -369,6 +385,12 @@ def search(ctx):
         run_cases(ctx, gen_exhaustive(ctx, 7), light=True)
         run_cases(ctx, gen_shapes(ctx))
         run_cases(ctx, gen_random(ctx, 2000))
+        t0 = time.time()
+        # stop as soon as a failing input is in hand (or after ~3 minutes)
+        for _ in range(40):
+            if any(v['kind'] == 'oracle' for v in ctx.violations) or time.time() - t0 > 180:
+                break
+            run_cases(ctx, gen_dense8(ctx, 500), light=True)
     finally:
         ctx.tier, ctx.model = old, model
 
